@@ -9,7 +9,7 @@ for d in sorted(glob.glob("/verif/seeded/*/meta.json")):
     cur = m.get("current") or {k: v for k, v in m["results"].items()}
     verdict = ", ".join(f"{k.split(' ')[0]}: {v['verdict'].lower()}" for k, v in cur.items())
     first = m.get("first_verdict_before_strengthening") or ("missed" if "missed_at_first_then_strengthened" in m else "caught")
-    st = m.get("missed_at_first_then_strengthened", "–")
+    st = m.get("missed_at_first_then_strengthened") or m.get("strengthened_although_caught", "–")
     need = m["needs_to_manifest"].replace("|", "\\|").replace("\n", " ")
     rows.append(f"| {sid} | {m['breaks_property']} | {need} | {first} | {verdict} | {st.replace('|', chr(92)+'|')} |")
 head = "| seed | aimed at | what it needs to manifest | first verdict | verdict now (quick tier) | strengthening it caused |\n|------|----------|---------------------------|---------------|--------------------------|-------------------------|\n"
